@@ -12,6 +12,12 @@ from clikit.api.io import IO
 from clikit.utils._compat import decode
 
 
+class Aborted(RuntimeError):
+    """
+    Raised when the input ends while an answer is expected.
+    """
+
+
 class Question(object):
     """
     A question that will be asked in a Console.
@@ -247,6 +253,9 @@ class Question(object):
 
             try:
                 return self._validator(interviewer())
+            except Aborted:
+                # End of input: asking again cannot succeed
+                raise
             except Exception as e:
                 error = e
 
@@ -262,7 +271,7 @@ class Question(object):
         ret = io.read_line(4096)
 
         if not ret:
-            raise RuntimeError("Aborted")
+            raise Aborted("Aborted")
 
         return decode(ret.strip())
 
